@@ -17,12 +17,17 @@ def roles_impl(w, trait):
     return roles.impl_path(w, 'ObjStringStore', trait)
 
 
-def run(rep):
+def bind(w):
+    """the intern table's module is found from its type (rules of this module also run under other properties)"""
     global STORE, SSMOD
-    w = rep.world('dev')
     import roles
     SSMOD = roles.module_of(w, 'ObjStringStore')
     STORE = SSMOD + '::ObjStringStore'
+
+
+def run(rep):
+    w = rep.world('dev')
+    bind(w)
     rep.guard(i1, rep, w)
     rep.guard(i2, rep, w)
     rep.guard(i3, rep, w)
@@ -37,6 +42,7 @@ def run(rep):
 
 
 def i1(rep, w):
+    bind(w)
     c = w.yarel
     r = rep.rule('I1', 'one constructor: every ObjString is built by ObjString::new, called only from Vm::new_gc_obj_string; no other path '
                  'puts an ObjString into the heap', floor=4)
@@ -66,6 +72,7 @@ def i1(rep, w):
 
 
 def i2(rep, w):
+    bind(w)
     r = rep.rule('I2', 'new_gc_obj_string looks the content up first and allocates only on a miss, with the same hash it stores', floor=4)
     f = w.require_fn(VM + 'new_gc_obj_string', 'C11')
     org = origins(f)
@@ -111,6 +118,7 @@ def i2(rep, w):
 
 
 def i3(rep, w):
+    bind(w)
     c = w.yarel
     r = rep.rule('I3', 'strings are immutable: no writer of ObjString.string/hash outside the constructor, no &mut to a managed string', floor=3)
     for fld in ('string', 'hash'):
@@ -146,6 +154,7 @@ def f64_of(bits):
 
 
 def i4(rep, w):
+    bind(w)
     c = w.yarel
     r = rep.rule('I4', 'intern-table probing terminates (load factor < 1, power-of-two capacity, mask = capacity - 1) and a slot matches '
                  'only on equal hash and equal text', floor=6)
@@ -270,6 +279,7 @@ def i4(rep, w):
 
 
 def i5(rep, w):
+    bind(w)
     """two strings with the same bytes must hash alike wherever their bytes happen to sit in memory: the hasher consumes the byte slice one
     byte at a time. Splitting it by alignment (align_to), reading it through pointers or in native-endian words makes the hash depend on
     the buffer's address or length class, and equal texts are interned twice."""
